@@ -190,12 +190,46 @@ class Handle:
         return [k if k is not None else "" for k in self.f.keys()]
 
     def get(self, label):
+        """label: the text of a label, or an integer position in keys() (both are public ways to look a label up)."""
         with warnings.catch_warnings():
             warnings.simplefilter("ignore")
             try:
                 return "ok", self.f[label]
             except Exception as e:          # KeyError (no candidate) / SyntaxError (fragment not parsed)
                 return type(e).__name__, None
+
+    def n(self):
+        return len(self.f)
+
+
+EDITS = ("addH", "charge", "move", "delatom", "all")
+
+
+def mutate(mol, kind):
+    """What a caller ordinarily does with a molecule it was given -- public calls only.  Returns the edits that were made."""
+    done = []
+
+    def attempt(name, fn):
+        try:
+            with warnings.catch_warnings():
+                warnings.simplefilter("ignore")
+                fn()
+            done.append(name)
+        except Exception:
+            pass
+
+    def charge():
+        mol.atoms[0].formal_charge = (mol.atoms[0].formal_charge or 0) + 1
+        mol.charge = mol.charge + 1
+    if kind in ("addH", "all"):
+        attempt("addH", mol.add_implicit_hydrogens)
+    if kind in ("charge", "all"):
+        attempt("charge", charge)
+    if kind in ("move", "all"):
+        attempt("move", lambda: mol.translate([1.0, 2.0, 3.0]))
+    if kind in ("delatom", "all"):
+        attempt("delatom", lambda: mol.del_atom(mol.atoms[-1]))
+    return done
 
 
 def _order_token(b):
